@@ -493,3 +493,143 @@ func TestC08_Headers(t *testing.T) {
 		judge(rt, "c08hdr", c08HdrCase{p, u}, checkC08Headers)
 	})
 }
+
+// ---------------------------------------------------------------------------
+// COSE_Key encoding
+
+type c08KeyCase struct {
+	Spec     keySpec `json:"spec"`
+	LabelSp  uint8   `json:"label_sp"` // Go spelling of the integer labels in Params
+	Reversed bool    `json:"reversed"`
+}
+
+// libKey builds the in-memory cose.Key a caller would hold for the spec: EC2
+// coordinates as big.Int.Bytes() gives them when Trim is set (that is what
+// NewKeyFromPublic stores).
+func (c *c08KeyCase) libKey() *cose.Key {
+	k := &cose.Key{Type: cose.KeyType(c.Spec.Kty), Params: map[any]any{}}
+	v := c.Spec.val()
+	entries := v.M
+	if c.Reversed {
+		entries = reverseVal(v).M
+	}
+	for _, e := range entries {
+		l, isInt := e.K.Int64()
+		if isInt && l >= 1 && l <= 5 {
+			continue // common parameters live in struct fields
+		}
+		var key any = bridge.ToGo(e.K)
+		if isInt {
+			key = bridge.ToGo(rc.IntSp(l, c.LabelSp))
+			if l == -1 && (c.Spec.Kty == 1 || c.Spec.Kty == 2) {
+				cv, _ := e.V.Int64()
+				k.Params[key] = cose.Curve(cv)
+				continue
+			}
+		}
+		k.Params[key] = bridge.ToGo(e.V)
+	}
+	if c.Spec.Kid != nil {
+		k.ID = append([]byte{}, c.Spec.Kid...)
+	}
+	if c.Spec.BaseIV != nil {
+		k.BaseIV = append([]byte{}, c.Spec.BaseIV...)
+	}
+	if c.Spec.HasOps {
+		k.Ops = []cose.KeyOp{}
+		for _, o := range c.Spec.Ops {
+			k.Ops = append(k.Ops, cose.KeyOp(o))
+		}
+	}
+	if c.Spec.WithAlg && (c.Spec.Kty == 1 || c.Spec.Kty == 2) {
+		k.Algorithm = cose.Algorithm(c.Spec.Mat.Alg)
+	}
+	return k
+}
+
+func checkC08Key(c c08KeyCase) error {
+	full := c.Spec
+	full.Trim = false
+	want := rc.Encode(full.val(), nil)
+	k := c.libKey()
+	var first []byte
+	for i := 0; i < 6; i++ {
+		got, err := k.MarshalCBOR()
+		if err != nil {
+			stats.Class("refused/" + shortErr(err))
+			return nil
+		}
+		if i == 0 {
+			first = got
+		} else if !bytes.Equal(got, first) {
+			return finding("unstable", "repeated Key.MarshalCBOR differs\n first=%x\n again=%x", first, got)
+		}
+	}
+	if !bytes.Equal(first, want) {
+		return finding("not-reference-encoding", "Key.MarshalCBOR differs from the deterministic reference encoding\n got=%x\nwant=%x", first, want)
+	}
+	if is := rc.DeterminismIssues(mustParse(first)); len(is) > 0 {
+		return finding("non-canonical", "%+v\n%x", is, first)
+	}
+	var k2 cose.Key
+	if err := k2.UnmarshalCBOR(append([]byte{}, first...)); err != nil {
+		return finding("closure-decode", "Key.UnmarshalCBOR rejects Key.MarshalCBOR output: %v\n%x", err, first)
+	}
+	if re, err := k2.MarshalCBOR(); err != nil || !bytes.Equal(re, first) {
+		return finding("closure-reencode", "decoded key re-encodes differently (err=%v)\n in=%x\nout=%x", err, first, re)
+	}
+	// equivalent value
+	if k2.Type != k.Type || k2.Algorithm != k.Algorithm || !bytes.Equal(k2.ID, k.ID) || !bytes.Equal(k2.BaseIV, k.BaseIV) ||
+		(k2.ID == nil) != (k.ID == nil) || (k2.BaseIV == nil) != (k.BaseIV == nil) {
+		return finding("closure-value", "common parameters changed: %+v -> %+v", *k, k2)
+	}
+	if (k.Ops == nil) != (k2.Ops == nil) || fmt.Sprint(k.Ops) != fmt.Sprint(k2.Ops) {
+		return finding("closure-value/key-ops", "key_ops changed in the round trip: %#v -> %#v\n%x", k.Ops, k2.Ops, first)
+	}
+	_, se1 := k.Signer()
+	_, se2 := k2.Signer()
+	_, ve1 := k.Verifier()
+	_, ve2 := k2.Verifier()
+	if c.LabelSp != rc.SpInt64 && ((se1 == nil) != (se2 == nil) || (ve1 == nil) != (ve2 == nil)) {
+		// observation, not judged: Key accessors look parameters up with int64 labels only, so an
+		// in-memory key whose Params use another Go integer type cannot find its own x / y / d,
+		// while its encoding (labels normalised) decodes to a working key
+		stats.Class("observation/in-memory-key-with-non-int64-labels-less-capable-than-its-decoding")
+	} else if (se1 == nil) != (se2 == nil) || (ve1 == nil) != (ve2 == nil) {
+		return finding("closure-value/capabilities", "signer/verifier availability changed in the round trip: signer %v -> %v, verifier %v -> %v\n%x", se1, se2, ve1, ve2, first)
+	}
+	stats.Class("encoded/Key")
+	stats.Class(fmt.Sprintf("key/kty=%d", c.Spec.Kty))
+	if c.Spec.HasOps && len(c.Spec.Ops) == 0 {
+		stats.Class("key/empty-ops")
+	}
+	if c.Spec.Trim {
+		stats.Class("key/short-coordinates-in-memory")
+	}
+	stats.NTBytes(first, []byte{c.LabelSp})
+	if len(first) < 150 {
+		stats.Sample(fmt.Sprintf("key/kty=%d", c.Spec.Kty), map[string]any{"wire": rc.Hex(first), "label_spelling": c.LabelSp})
+	}
+	return nil
+}
+
+func init() { register("c08key", checkC08Key) }
+
+func TestC08_Keys(t *testing.T) {
+	begin(t, "C08", "keys")
+	prop(t, func(rt *rapid.T) {
+		c := c08KeyCase{Spec: genKeySpec(rt), Reversed: rapid.Bool().Draw(rt, "reversed")}
+		sp := uint8(rapid.IntRange(0, 4).Draw(rt, "label-sp")) // signed spellings fit the negative key labels
+		c.LabelSp = sp
+		if sp != rc.SpInt64 && c.Spec.Trim {
+			// Key.MarshalCBOR re-pads x / y only when it finds them under int64 labels (its accessors do
+			// not normalise Go integer types); keys converted from Go keys always use int64 labels, so
+			// short coordinates under other label types are outside the model (C14 is about conversion)
+			c.Spec.Trim = false
+			stats.Excluded("short coordinates under non-int64 Params labels")
+		}
+		// extra parameter values must stay inside the data model of bytes comparison (no NaN)
+		stats.Eval()
+		judge(rt, "c08key", c, checkC08Key)
+	})
+}
